@@ -64,6 +64,7 @@ type Exec struct {
 	maxPaths int
 	safeOrd map[ssa.Instruction]string
 	callOrd map[ssa.Instruction]int
+	qualSite map[ssa.Instruction]string // "Recv.method#k": ordinal among the calls of that method of that receiver type (before_call sites)
 	loopOrd map[*ssa.BasicBlock]int
 	entry  *State // snapshot after parameter binding (for old())
 	params map[string]TV
@@ -607,7 +608,7 @@ func (x *Exec) newCell(name string, t types.Type) *Cell {
 
 func VerifyFunction(prog *Program, fn *ssa.Function, fc *FuncContract, sweep bool) (obs []*Obligation, rep *FuncReport) {
 	x := &Exec{prog: prog, fn: fn, fc: fc, obs: map[string]*Obligation{}, maxPaths: 200000,
-		safeOrd: map[ssa.Instruction]string{}, callOrd: map[ssa.Instruction]int{}, loopOrd: map[*ssa.BasicBlock]int{},
+		safeOrd: map[ssa.Instruction]string{}, callOrd: map[ssa.Instruction]int{}, qualSite: map[ssa.Instruction]string{}, loopOrd: map[*ssa.BasicBlock]int{},
 		abstr: map[string]bool{}, externsUsed: map[string]bool{}, sweep: sweep, opaquePtr: map[*Cell]*Term{}, fresh: map[string]bool{}, assertedSites: map[string]bool{}, elideCache: map[*ssa.BasicBlock]*ssa.BasicBlock{}}
 	if fn.Pkg != nil {
 		x.pkg = fn.Pkg.Pkg
@@ -646,6 +647,9 @@ func (x *Exec) collect() []*Obligation {
 		for in, ord := range x.callOrd {
 			if ci, ok := in.(ssa.CallInstruction); ok {
 				existing[fmt.Sprintf("%s#%d", x.calleeName(ci.Common()), ord)] = true
+				if q := x.qualSite[in]; q != "" {
+					existing[q] = true
+				}
 			}
 		}
 		for site, cls := range x.fc.CallAsserts {
@@ -716,6 +720,10 @@ func (x *Exec) number() {
 				name := x.calleeName(c.Common())
 				calls[name]++
 				x.callOrd[in] = calls[name]
+				if q := qualCalleeName(c.Common()); q != "" {
+					calls[q]++
+					x.qualSite[in] = fmt.Sprintf("%s#%d", q, calls[q])
+				}
 			}
 		}
 	}
@@ -759,6 +767,33 @@ func loopHeadersByIndex(fn *ssa.Function) []*ssa.BasicBlock {
 		}
 	}
 	return out
+}
+
+// qualCalleeName: "Recv.method" for a statically dispatched method call (receiver type name without package and
+// pointer), "" otherwise. Lets a before_call clause tell sync.Mutex.Lock from wrappedMutex.Lock without depending on
+// how many other calls named Lock the function contains.
+func qualCalleeName(c *ssa.CallCommon) string {
+	if c.IsInvoke() {
+		return ""
+	}
+	f := c.StaticCallee()
+	if f == nil {
+		return ""
+	}
+	if f.Origin() != nil {
+		f = f.Origin()
+	}
+	if f.Signature == nil || f.Signature.Recv() == nil {
+		return ""
+	}
+	t := f.Signature.Recv().Type()
+	if p, ok := t.(*types.Pointer); ok {
+		t = p.Elem()
+	}
+	if n, ok := t.(*types.Named); ok {
+		return n.Obj().Name() + "." + f.Name()
+	}
+	return ""
 }
 
 func (x *Exec) calleeName(c *ssa.CallCommon) string {
